@@ -1,6 +1,7 @@
 import functools
 
 from dask.dataframe import methods
+from dask.dataframe.dispatch import make_meta, meta_nonempty
 from dask.utils import M
 
 from dask_expr._expr import Blockwise, Expr, Projection, plain_column_projection
@@ -18,7 +19,8 @@ class CumulativeAggregations(Expr):
 
     @functools.cached_property
     def _meta(self):
-        return self.frame._meta
+        # e.g. the cumulative sum of a boolean column is an integer column
+        return make_meta(self.chunk_operation(meta_nonempty(self.frame._meta)))
 
     def _lower(self):
         chunks = CumulativeBlockwise(
@@ -39,7 +41,7 @@ class CumulativeBlockwise(Blockwise):
 
     @functools.cached_property
     def _meta(self):
-        return self.frame._meta
+        return make_meta(self.operation(meta_nonempty(self.frame._meta)))
 
     @functools.cached_property
     def operation(self):
@@ -53,6 +55,10 @@ class CumulativeBlockwise(Blockwise):
 class TakeLast(Blockwise):
     _parameters = ["frame", "skipna"]
     _projection_passthrough = True
+
+    def _divisions(self):
+        # one row (or scalar) per partition, labelled by the column names
+        return (None,) * (self.frame.npartitions + 1)
 
     @staticmethod
     def operation(a, skipna=True):
